@@ -39,7 +39,7 @@ func goodFeedBytes(ts int64, withTrip bool) []byte {
 	return b
 }
 
-var dirNames = []string{"a", "b", "B", "10", "9", "09", "_x", "~", "feed-001.pb", "feed-002.pb", "feed-010.pb", "Z", "é", "日", "a.b", "a-b", "a b", ".hidden", "z0", "z00"}
+var dirNames = []string{"a", "b", "B", "10", "9", "09", "_x", "~", "feed-001.pb", "feed-002.pb", "feed-010.pb", "Z", "é", "日", "a.b", "a-b", "a b", ".hidden", "z0", "z00", "a[1]", "x*", "q?", "b\\c"}
 
 func genDirCase(r *Rng, tier string) map[string]any {
 	n := r.Intn(9)
@@ -67,8 +67,17 @@ func genDirCase(r *Rng, tier string) map[string]any {
 		}
 		entries = append(entries, e)
 	}
-	return map[string]any{"kind": "dirsrc", "entries": entries}
+	c := map[string]any{"kind": "dirsrc", "entries": entries}
+	if r.P(1, 3) {
+		// the directory's own name: blanks, punctuation, characters that mean something to pattern matchers, multi-byte
+		c["dirName"] = bstr(r.Pick(baseDirNames))
+	}
+	return c
 }
+
+// directory names; each name with a pattern reading has a sibling that the pattern would match (filled with a decoy feed)
+var baseDirNames = []string{"archive 2024-01-02", "archive (copy)", "archive[1]", "line[A]", "what?", "feeds*", "a\\b", "é", ".hidden", "a,b", "%41", "{a,b}", "~", "-x"}
+var dirDecoys = map[string]string{"archive[1]": "archive1", "line[A]": "lineA", "what?": "whatX", "feeds*": "feedsXYZ", "a\\b": "ab", "{a,b}": "a"}
 
 func materialise(dir string, entries []any, onlyGood bool) (vanish []string, err error) {
 	for _, e := range entries {
@@ -119,7 +128,7 @@ func materialise(dir string, entries []any, onlyGood bool) (vanish []string, err
 type dirProp struct{}
 
 func (p *dirProp) Rule() string {
-	return "real directories of 0-8 entries with names stressing bytewise order (digits, case, punctuation, multi-byte, dot files); entry kinds: good feed, good feed with a trip, symbolic link to a good feed kept elsewhere, byte-identical copies of a good feed under other names, empty file, truncated message, garbage bytes, sub-directory, file deleted after listing, dangling symlink; the sequence of Next() results is compared with the model's prediction and the journal over the directory with the journal over its good files alone; distinct = distinct input JSON; non-trivial = at least one good and one bad entry"
+	return "real directories of 0-8 entries with names stressing bytewise order (digits, case, punctuation, multi-byte, dot files), one directory in three itself named with blanks, brackets, wildcard characters, a backslash, braces or multi-byte characters (with a sibling directory such a pattern would match); entry kinds: good feed, good feed with a trip, symbolic link to a good feed kept elsewhere, byte-identical copies of a good feed under other names, empty file, truncated message, garbage bytes, sub-directory, file deleted after listing, dangling symlink; the sequence of Next() results is compared with the model's prediction and the journal over the directory with the journal over its good files alone; distinct = distinct input JSON; non-trivial = at least one good and one bad entry"
 }
 func (p *dirProp) N(tier string) int {
 	if tier == "thorough" {
@@ -177,7 +186,16 @@ func (p *dirProp) Check(in map[string]any, model json.RawMessage) Verdict {
 		}
 	}
 	os.Remove(filepath.Join(dir, "a-file"))
-	all := filepath.Join(dir, "all")
+	allName := "all"
+	if has(in, "dirName") {
+		allName = unbstr(gs(in, "dirName"))
+		v.Tags = append(v.Tags, "dir-name:"+allName)
+		if decoy, ok := dirDecoys[allName]; ok {
+			os.Mkdir(filepath.Join(dir, decoy), 0o755)
+			os.WriteFile(filepath.Join(dir, decoy, "decoy"), goodFeedBytes(42, true), 0o644)
+		}
+	}
+	all := filepath.Join(dir, allName)
 	good := filepath.Join(dir, "good")
 	os.Mkdir(all, 0o755)
 	os.Mkdir(good, 0o755)
